@@ -96,7 +96,7 @@ PURE_SPECS = [
          cfg_attrs={'bridge', 'beam_waist', 'round_corner', 'h_box', 'z_off', 'deltaz'},
          methods={'adj_bridge': ('property', [], 'Q'), 'n_repeat': ('property', [], 'Z')}, local_elt={}),
 ]
-EXC = {'ValueError': 'EValue', 'FileNotFoundError': 'EFileNotFound', 'TypeError': 'EType'}
+EXC = {'ValueError': 'EValue', 'FileNotFoundError': 'EFileNotFound', 'TypeError': 'EType', 'IndexError': 'EIndex'}
 
 HEADER_WITH = ("With(items=[withitem(context_expr=Call(func=Name(id='open'), args=[BinOp(left=BinOp(left=Attribute("
                "value=Call(func=Attribute(value=Name(id='pathlib'), attr='Path'), args=[Name(id='__file__')], keywords=[]),"
@@ -2147,6 +2147,66 @@ def translate_raster(src_dir: str) -> str:
         METHODS, CFG_ATTRS, STATE_ATTRS, ORACLES, CFG_TYPE, LOCAL_ELT, EXTRA_PARAMS, MONAD, EXPR_HOOKS, STMT_SKIP, RECEIVERS, STMT_HOOKS = saved
     return ''.join(out)
 
+# ---- LaserPath.init_point / start / end (C04, C14): how a path is opened and closed
+def _h_lb(tr, e, env):
+    d = dump(e)
+    m = re.fullmatch(r"Attribute\(value=Attribute\(value=Name\(id='self'\), attr='(_[xyzfs])'\), attr='size'\)", d)
+    if m:
+        return [('st__', 'get')], f'(py_len (lb_{m.group(1)} st__))'
+    if isinstance(e, ast.Call) and _np_is(e.func, 'np', 'array') and len(e.args) == 1 and not e.keywords and isinstance(e.args[0], ast.List):
+        effs, ts = [], []
+        for x in e.args[0].elts:
+            eff, t = tr.E(x, env)
+            effs += eff
+            ts.append(f'(to_float {t})')
+        return effs, '[' + '; '.join(ts) + ']'
+    if (isinstance(e, ast.IfExp) and isinstance(e.test, ast.Compare) and len(e.test.ops) == 1 and isinstance(e.test.ops[0], ast.IsNot)
+            and isinstance(e.test.comparators[0], ast.Constant) and e.test.comparators[0].value is None
+            and isinstance(e.test.left, ast.Attribute) and dump(e.test.left) == dump(e.body) and dump(e.test.left.value) == "Name(id='self')"):
+        eo, to = tr.E(e.orelse, env)          # self.a if self.a is not None else d
+        if eo:
+            raise Unsupported('effect in a default')
+        return [], f'(match cfg_{e.body.attr} c with Some v__ => v__ | None => {to} end)'
+    if isinstance(e, ast.Call) and isinstance(e.func, ast.Attribute) and isinstance(e.func.value, ast.Name) and e.func.value.id == 'np' \
+            and e.func.attr != 'size':
+        raise Unsupported(f'numpy call outside the subset: {d[:160]}')
+    return None
+
+
+def _s_lb(tr, s, rest, env, tail):
+    if (isinstance(s, ast.Assign) and len(s.targets) == 1 and isinstance(s.targets[0], ast.Tuple) and all(isinstance(x, ast.Name) for x in s.targets[0].elts)
+            and not isinstance(s.value, ast.Name)):
+        names = [cname(x.id) for x in s.targets[0].elts]
+        eff, t = tr.E(s.value, env)
+        return tr.wrap(eff, f"match {t} with [{'; '.join(names)}] => {tr.T(rest, env, tail)} | _ => raise EValue end")
+    return None
+
+
+def translate_laserpath(src_dir: str) -> str:
+    global METHODS, CFG_ATTRS, STATE_ATTRS, ORACLES, CFG_TYPE, LOCAL_ELT, EXTRA_PARAMS, MONAD, EXPR_HOOKS, STMT_SKIP, RECEIVERS, STMT_HOOKS
+    saved = (METHODS, CFG_ATTRS, STATE_ATTRS, ORACLES, CFG_TYPE, LOCAL_ELT, EXTRA_PARAMS, MONAD, EXPR_HOOKS, STMT_SKIP, RECEIVERS, STMT_HOOKS)
+    out = [PURE_PREAMBLE % ('laserpath.py', ' Path.Laser', 'LbState')]
+    try:
+        lp = ast.parse(pathlib.Path(src_dir, 'laserpath.py').read_text())
+        cls = [n for n in lp.body if isinstance(n, ast.ClassDef) and n.name == 'LaserPath']
+        if len(cls) != 1:
+            raise Unsupported('class LaserPath not found')
+        METHODS = {'init_point': ('property', [], 'list Q'),
+                   'start': ('method', [('init_pos', 'option (list Q)'), ('speed_pos', 'option Q')], 'unit'),
+                   'end': ('method', [], 'unit')}
+        CFG_ATTRS = {'x_init', 'y_init', 'z_init', 'speed', 'speed_pos', 'speed_closed'}
+        STATE_ATTRS = {'_x': 'lb__x', '_y': 'lb__y', '_z': 'lb__z', '_f': 'lb__f', '_s': 'lb__s'}
+        ORACLES = {'add_path': ('lb_add_path', True, False, ['x', 'y', 'z', 'f', 's'])}
+        CFG_TYPE, LOCAL_ELT, EXTRA_PARAMS, MONAD = 'lb_cfg', {}, '', 'ML'
+        EXPR_HOOKS, STMT_SKIP, RECEIVERS, STMT_HOOKS = [_h_lb], [], {'self'}, [_s_lb]
+        tr = Tr(cls[0])
+        out.append('\n'.join(f'Notation cfg_{a} := lb_{a}.' for a in sorted(CFG_ATTRS)) + '\n\n')
+        for name in METHODS:
+            out.append(tr.method(name) + '\n')
+    finally:
+        METHODS, CFG_ATTRS, STATE_ATTRS, ORACLES, CFG_TYPE, LOCAL_ELT, EXTRA_PARAMS, MONAD, EXPR_HOOKS, STMT_SKIP, RECEIVERS, STMT_HOOKS = saved
+    return ''.join(out)
+
 
 def main(argv):
     """py2coq.py <dir of femto sources> <output dir> <group>...   groups: pgm (PgmSrc.v), SrcLp.v, SrcNw.v, SrcTc.v, SrcTr.v"""
@@ -2170,6 +2230,8 @@ def main(argv):
                 name, text = g, translate_add_path(str(src_dir))
             elif g == 'SrcRi.v':
                 name, text = g, translate_raster(str(src_dir))
+            elif g == 'SrcLb.v':
+                name, text = g, translate_laserpath(str(src_dir))
             elif g == 'SrcSs.v':
                 name, text = g, translate_sheet(str(src_dir))
             elif g == 'SrcTn.v':
